@@ -1106,9 +1106,15 @@ class StructOf(DataType):
     def compatible(self, other):
         try:
             mandatory = set(other.members) - set(other.optional)
+            # a member which may be missing here can not satisfy a mandatory member of other
+            # (all members optional is the default of the constructor: taken as 'not specified')
+            optional = set(self.optional)
+            if optional == set(self.members):
+                optional = set()
             for k, m in self.members.items():
                 m.compatible(other.members[k])
-                mandatory.discard(k)
+                if k not in optional:
+                    mandatory.discard(k)
             if mandatory:
                 raise WrongTypeError('incompatible datatypes')
         except (AttributeError, TypeError, KeyError):
